@@ -240,6 +240,10 @@ def oracle(case, micro, rows):
             if len([x for x in r["items"].split(",") if x]) + len([x for x in r["ready"].split(",") if x]) >= case["cap"]:
                 full_at = clock
                 full_items = set(x for x in r["items"].split(",") if x)      # what the capacity trigger must send off
+        if [x for x in r.get("getq", "").split(",") if x] and \
+                len([x for x in r["ready"].split(",") if x]) > len([x for x in r.get("getres", "").split(",") if x]):
+            viol.append((i, "a delivered item is not handed over: retrieval request(s) %s wait although %d delivered item(s) are unreserved" %
+                         (r["getq"], len([x for x in r["ready"].split(",") if x]) - len([x for x in r.get("getres", "").split(",") if x]))))
         ready = [int(x) for x in r["ready"].split(",") if x]
         if sorted(ready, key=lambda x: seq.get(x, -1)) != ready and not any("order" in m for _, m in viol):
             viol.append((i, "available items %s are not in loading order" % ready))
